@@ -219,6 +219,38 @@ def enc(s):
     return ','.join(map(str, s)) if s else '-'
 
 
+# --------------------------------------------------------------------------- calls that never come back
+
+class Stuck(BaseException):
+    """raised in the main thread when a guarded call into the code under test is still blocked after its time limit
+    (BaseException: no `except Exception` of the code under test swallows it)"""
+
+
+class guard(object):
+    """with common.guard(seconds): <call into pexpect>   -- SIGALRM based, main thread only; a call that blocks for good becomes
+    common.Stuck, which the stage turns into a reported finding instead of a check that hangs"""
+
+    def __init__(self, seconds):
+        self.seconds = seconds
+
+    def __enter__(self):
+        import signal, threading
+        self.active = threading.current_thread() is threading.main_thread()
+        if self.active:
+            def on_alarm(sig, frm):
+                raise Stuck()
+            self.old = signal.signal(signal.SIGALRM, on_alarm)
+            signal.setitimer(signal.ITIMER_REAL, self.seconds)
+        return self
+
+    def __exit__(self, et, ev, tb):
+        import signal
+        if self.active:
+            signal.setitimer(signal.ITIMER_REAL, 0)
+            signal.signal(signal.SIGALRM, self.old)
+        return False
+
+
 # --------------------------------------------------------------------------- findings and evidence
 
 def known_findings():
